@@ -29,6 +29,9 @@ type input struct {
 	t0, t1 time.Time
 	mut    string
 	kind   string
+	// the packet the same processor handled immediately before (nil: fresh processor)
+	prevRaw  []byte
+	prevLink *router.VerifR1Link
 }
 
 func (in *input) replay(a answer) map[string]any {
@@ -36,8 +39,14 @@ func (in *input) replay(a answer) map[string]any {
 	for _, i := range in.cfg.ifs {
 		ifs = append(ifs, fmt.Sprintf("if %d scope=%s type=%d up=%v link=%d", i.id, scopeName[i.scope], i.lt, i.up, i.link))
 	}
+	prev := map[string]any{}
+	if in.prevRaw != nil && in.prevLink != nil {
+		prev = map[string]any{"packet": vlib.Hex(in.prevRaw), "ingress_link": in.prevLink.Name,
+			"ingress_ifid": in.prevLink.ID, "ingress_scope": int(in.prevLink.Kind)}
+	}
 	return map[string]any{
-		"local_ia": fmt.Sprintf("%#x", in.cfg.ia), "key": vlib.Hex(in.cfg.key), "interfaces": ifs, "svcs": in.cfg.svcs,
+		"previous_packet_on_same_processor": prev,
+		"local_ia":                          fmt.Sprintf("%#x", in.cfg.ia), "key": vlib.Hex(in.cfg.key), "interfaces": ifs, "svcs": in.cfg.svcs,
 		"ingress_link": in.link.Name, "ingress_ifid": in.link.ID, "ingress_scope": int(in.link.Kind),
 		"scenario": in.kind, "mutator": in.mut, "now_unix_ns": in.t0.UnixNano(),
 		"packet": vlib.Hex(in.raw), "router_answer": clip(a.text),
